@@ -7,6 +7,6 @@ LEVEL = "model_checking"
 def run(tier):
     return _common.corpus_property(
         "C04", tier, LEVEL, models=(),
-        need=('odd_W','multi_series','series_of_exactly_W_rows','W1'),
+        need=('odd_W','multi_series','series_of_exactly_W_rows','W1','equal_length_series_with_several_labels'),
         rule="""every completed run of both front ends: per-series label lists, margins, K, W, MRF shapes as integers checked by TLC against StackOps (Front/Back/Strip); non-trivial = distinct (W parity, number of series, N) combinations with W>1""",
         nontrivial=lambda t: (t['hdr']['W']%2, len(t['hdr']['lens']), t['hdr']['N'], t['hdr']['W']) if t['hdr']['W']>1 else None)
